@@ -78,6 +78,7 @@ import fam_iter
 
 
 def c08(run, ctx):
+    fam_vm.end_arm(run, ctx)
     fam_iter.iterator_impls(run, ctx)
     fam_iter.own_matches(run, ctx)
     fam_iter.iter_state_machine(run, ctx, "<Matches as Iterator>::next", "find_iter")
@@ -86,8 +87,8 @@ def c08(run, ctx):
 
 PROPS["C08"] = {"fn": c08, "level": "other",
     "technique": "structured path enumeration of the iterator body (HIR) with per-path difference-constraint facts; must-pass-through obligations on the state machine",
-    "claim": "Decides the shape of the find_iter state machine on every path of Matches::next: search only while pos <= len and stop only beyond it, an Err poisons the iterator, empty matches advance by one code point, adjacent empty matches are dropped after advancing, the previous match end is recorded before every yield, the skipped-empty-match flag is passed exactly when an empty match was skipped. Non-overlap of successive matches for concrete inputs is not decided.",
-    "note": "Necessary conditions only; the behaviour of a single search (C01) and that matches never start before the previous end are outside this check (see known finding F2 under C05/C10/C11).",
+    "claim": "Decides the shape of the find_iter state machine on every path of Matches::next: search only while pos <= len and stop only beyond it, an Err poisons the iterator, empty matches advance by one code point, adjacent empty matches are dropped after advancing, the previous match end is recorded before every yield, the skipped-empty-match flag is passed exactly when an empty match was skipped. That a match never starts before the position its search started from (hence never before the previous match's end) is decided structurally: the VM's End arm caps the start to the search position and the wrapped engine searches the span pos..len.",
+    "note": "Necessary conditions only; the behaviour of a single search is C01's subject. Trusted: regex-automata reports spans inside the searched span.",
     "explanation": "All paths of Matches::next and next_utf8 are enumerated from the type-resolved HIR; each obligation is evaluated on every path with the branch conditions of that path as facts."}
 
 
@@ -100,6 +101,7 @@ def c09(run, ctx):
 
 
 def c10(run, ctx):
+    fam_vm.end_arm(run, ctx)
     fam_iter.iterator_impls(run, ctx)
     fam_iter.split_rule(run, ctx)
     fam_iter.own_matches(run, ctx)
@@ -107,6 +109,7 @@ def c10(run, ctx):
 
 
 def c11(run, ctx):
+    fam_vm.end_arm(run, ctx)
     fam_iter.replace_rule(run, ctx)
     fam_iter.replacer_rule(run, ctx)
     # the two loops of try_replacen iterate with find_iter / captures_iter: both must be the same state machine
@@ -122,12 +125,12 @@ PROPS["C09"] = {"fn": c09, "level": "other",
 PROPS["C10"] = {"fn": c10, "level": "other",
     "technique": "structured path enumeration of Split::next / SplitN::next with must-pass-through obligations",
     "claim": "Decides the shape of the split state machines on every path: piece = target[next_start..m.start()] then next_start = m.end(); remainder target[next_start..len] once, then a sentinel beyond len; errors passed through; SplitN: limit==0 first, decrement before the limit>0 test, delegate to Split::next, last piece is the untouched remainder. Piece boundaries for concrete inputs are not decided.",
-    "note": "Relies on C08 for the matches themselves; the ordering next_start <= m.start() is known finding F2 (reported under C05).",
+    "note": "Relies on C08 for the matches themselves; next_start <= m.start() follows from the End-arm cap start >= search position (checked here) and the iterator searching from last_end >= previous end.",
     "explanation": "All paths of both next() bodies are enumerated; each class of path (exhausted/remainder/match/error; zero/delegate/last/done) must exist and satisfy its obligations."}
 PROPS["C11"] = {"fn": c11, "level": "other",
     "technique": "structured path enumeration of try_replacen (both loops) + Replacer impl table",
     "claim": "Decides structurally that both loops of try_replacen borrow iff there is no match, propagate search errors with `?` before slicing, stop at `limit > 0 && i >= limit`, copy the gap, insert the replacement once and advance last_match to m.end(), append the tail; replace/replace_all/replacen forward (1,0,n); the five string-like Replacer impls share one no_expansion helper testing contains('$'), NoExpand returns Some, closures keep None; every replace_append writes to dst.",
-    "note": "The replaced text for concrete inputs is not decided; slices rely on F2's missing ordering guard (reported under C05).",
+    "note": "The replaced text for concrete inputs is not decided; last_match <= m.start() follows from the End-arm cap start >= search position (checked here) and the iterator state machine.",
     "explanation": "Paths of try_replacen are enumerated (loop bodies once); obligations are evaluated per path and per Replacer impl."}
 
 
@@ -152,6 +155,7 @@ import fam_flow
 
 
 def c14(run, ctx):
+    fam_taint.inner_limits(run, ctx)
     fam_flow.options_provenance(run, ctx)
     fam_flow.option_consumers(run, ctx)
 
@@ -221,6 +225,9 @@ from facts import strip_generics as _sg
 
 
 def c01(run, ctx):
+    fam_tmpl.literal_fast_path(run, ctx)
+    fam_enc.printable_rule(run, ctx)
+    fam_enc.assertion_rule(run, ctx)
     fam_vm.run_returns(run, ctx)
     fam_iter.entry_no_bypass(run, ctx)
     fam_tmpl.ctx_rule(run, ctx)
@@ -256,6 +263,7 @@ def c02(run, ctx):
 
 
 def c03(run, ctx):
+    fam_tmpl.literal_fast_path(run, ctx)
     fam_tmpl.compile_repeat(run, ctx)
     fam_tmpl.compile_alt(run, ctx)
     fam_vm.repeat_arms(run, ctx)
@@ -326,6 +334,7 @@ _c15_old = c15
 
 def c05(run, ctx):
     _c05_old(run, ctx)
+    fam_xfer.backref_validity(run, ctx)
     fam_vm.run_returns(run, ctx)
     fam_vm.own_ix(run, ctx)
     fam_vm.end_arm(run, ctx)
@@ -335,6 +344,8 @@ def c05(run, ctx):
 
 def c06(run, ctx):
     _c06_old(run, ctx)
+    fam_taint.hex_digits_rule(run, ctx)
+    fam_taint.inner_limits(run, ctx)
     fam_taint.alloc_sinks(run, ctx)
     fam_taint.recursion(run, ctx)
     fam_taint.byte_steps(run, ctx)
@@ -351,6 +362,7 @@ def c07(run, ctx):
 
 def c15(run, ctx):
     _c15_old(run, ctx)
+    fam_xfer.backref_validity(run, ctx)
     fam_tmpl.ctx_rule(run, ctx)
     fam_parse.conditional_rule(run, ctx)
     fam_enc.any_arms_rule(run, ctx)
